@@ -26,6 +26,9 @@ THEOREMS = [
     "RedunModel.C20.tags_only_intended",
     "RedunModel.C20.finish_idempotent_nodes",
     "RedunModel.C20.values_keyed",
+    "RedunModel.C20.edges_durable_with_node",
+    "RedunModel.C20.retry_from_durable_same_graph",
+    "RedunModel.C20.split_commit_loses_edges",
 ]
 TRUSTED = [
     "hashes are symbolic: a call hash is its pre-image [CallNode, task, args, result, sorted kids]; task/args/value hashes are "
@@ -39,6 +42,11 @@ TRUSTED = [
     "replaced by deterministic ones (task functions run on the scheduler thread, completion order chosen by the seed)",
 ]
 ASSUMPTIONS = [
+    "fault histories: call trees in which every job records provenance and all calls are distinct (so the recovered graph can be "
+    "compared row by row with the fault-free one), run on a sqlite file with tasks inline on the scheduler thread (ctl_db); one "
+    "fault per history: a transient OperationalError at one writing commit (absorbed by db_retry, or followed by a re-run when it "
+    "escapes), or a process death right after one writing commit followed by a re-run on the same file; Argument / "
+    "CallSubtreeTask rows are not part of this oracle (C22 owns them)",
     "programs: trees of calls of 8 real tasks interpreting a data spec (leaf / failure / parallel children / dataflow join / catch "
     "/ apply_tags / staged children), task variants with check_valid=shallow, cache=False, definition-level tags (also on a shallow task), prov=False or tags at the call; "
     "1-3 executions per database (replay, mutated program, cache=False run), each by a fresh Scheduler on the same backend",
@@ -50,7 +58,12 @@ RULE = ("one case = one database history (1-3 executions of generated call trees
         "execution all CallNode/CallEdge/Job/Execution/Tag/Value rows are read back; every digest is replaced by its logged "
         "pre-image and compared with the model's prediction from the observed job tree; independently every call hash is "
         "recomputed with redun's hash_struct from the observed tree, every value is deserialized and re-hashed, tags are "
-        "compared with the program's intent. distinct = distinct (specs, policies); a history with a single leaf job is trivial")
+        "compared with the program's intent. distinct = distinct (specs, policies); a history with a single leaf job is trivial. "
+        "Fault histories (cases tagged fault=...): per program one fault-free run in which the database right after EVERY writing "
+        "commit must already be Merkle-consistent on its rows, then for every commit position (quick: all positions of one corpus "
+        "program, a seeded sample of 4 for 2 generated ones; thorough: all) a transient-error history and a process-death + re-run "
+        "history, after which every CallNode must be hash(task, args, result, sorted children of its CallEdge rows), child jobs' "
+        "nodes must be edge children of their parent's node, and CallNode/CallEdge rows must equal the fault-free run's")
 
 LEVEL_TEXT = (
     "Proved in Lean 4 on the recorder model (Model/Merkle.lean; symbolic hashes), all universally quantified, full strength: "
@@ -63,17 +76,22 @@ LEVEL_TEXT = (
     "trees: when every job records provenance all ids are recomputable from the rows alone), job_row_after_start / "
     "job_row_after_finish / exec_root (Job.parent_id, call_hash, cached, Execution.job_id mirror the tree; collapsed and "
     "cache-served jobs, with a value or with an error served by CSE, point to the node handed over), job_call_hash_recorded (the Job->CallNode foreign key), tags_attached / "
-    "tags_only_intended, finish_idempotent_nodes (replays, duplicates), values_keyed. No _partial / _refuted theorem. "
+    "tags_only_intended, finish_idempotent_nodes (replays, duplicates), values_keyed; commit structure of record_call_node: "
+    "edges_durable_with_node (in every durable state a node written by the call has exactly its edges), "
+    "retry_from_durable_same_graph (a second attempt from any durable state ends with the uninterrupted graph), "
+    "split_commit_loses_edges (contrast, not the code: committing the node before its edges loses them on retry). "
+    "No _partial / _refuted theorem. "
     "Tie: the job tree observed on the real scheduler (Job objects, not rows) is replayed by the model driver and all "
     "CallNode/CallEdge/Job/Execution/Tag rows are compared after every execution with digests replaced by logged pre-images; the "
     "property oracle recomputes every call hash with redun's hash_struct from the observed tree, checks edges/parents/roots/tags "
     "against the executed tree and the program, deserializes and re-hashes every Value row, and compares the node set under a "
-    "second completion order.")
+    "second completion order. The commit structure is tied by the fault histories (every durable state of a fault-free run, one "
+    "transient error / one process death at every commit position, recovery, whole-database Merkle check on the rows).")
 LEVEL_NOTE = (
     "Modelled, not verified: SHA-512/160 and bencode (C14), pickle (the audit found that value hashes depend on object identity: "
     "known finding C20-value-key-pickle-aliasing), sqlite transaction semantics. The job tree (which jobs exist, who collapses onto "
     "whom, which hash the cache hands over, completion order) is an INPUT of the model, observed per run: the evaluation machine "
-    "itself is C01/C06 territory. The model cannot exhibit process death between commits (C22), threads, limits, contexts "
+    "itself is C01/C06 territory. Of the commit structure only record_call_node's is modelled (node + edges in one commit); other recorders' crash points are C22's. The model cannot exhibit threads, limits, contexts "
     "(context tags on CallNodes), handles/files, remote executors. Found and fixed through this check: a job collapsed onto a "
     "prov=False twin crashed the run with a foreign-key error (commit d273f7b).")
 TECHNIQUE = "Lean 4 proof on a hand-written recorder model + whole-database differential audit of real deterministic runs"
@@ -761,19 +779,236 @@ def replay_pickle_aliasing_witness(ctx):
                           "which depend on which equal sub-objects are one object")
 
 
+# ------------------------------------------------------------------ fault histories (commit structure of record_call_node)
+def gen_fault_call(rng, depth, counter):
+    """call trees for the fault histories: every job records provenance, every leaf has its own label (no equal calls: the
+    graph of a recovered run must be comparable row by row with the fault-free run), no `comb` (its string results would bring in
+    the pickle-aliasing finding)"""
+    counter[0] += 1
+    lab = counter[0]
+    variant = rng.choice(["A", "A", "B", "T", "S"])
+    k = rng.random()
+    if depth <= 0 or k < 0.3:
+        return (variant, "", ("leaf", lab, ()))
+    if k < 0.65:
+        kind, n = "par", rng.choice([1, 2, 3])
+    elif k < 0.8:
+        kind, n = "then", 2
+    elif k < 0.9:
+        kind, n = "tags", 1
+    else:
+        return (variant, "", ("catch", lab, ((rng.choice(["A", "B"]), "", ("par", lab + 500, (
+            gen_fault_call(rng, 0, counter), ("A", "", ("fail", lab + 700, ()))))),)))
+    return (variant, "", (kind, lab, tuple(gen_fault_call(rng, depth - 1, counter) for _ in range(n))))
+
+
+FAULT_CORPUS = [
+    c("A", S("par", 1, c("A", leaf(2)), c("B", leaf(3)))),                            # a parent with two child calls
+    c("A", S("par", 1, c("A", leaf(2)), c("B", S("par", 4, c("A", leaf(5)))))),       # parent, child, grandchild
+    c("A", S("par", 1, c("A", leaf(2)), c("B", leaf(3)), c("A", S("par", 4, c("A", leaf(5)))))),
+    c("A", S("then", 1, c("A", S("par", 2, c("A", leaf(3)))), c("T", S("tags", 4, c("A", leaf(5)))))),
+]
+
+
+def read_graph(db_path):
+    import sqlite3
+    con = sqlite3.connect(db_path)
+    try:
+        nodes = {r[0]: r[1:] for r in con.execute("select call_hash, task_hash, args_hash, value_hash from call_node")}
+        edges = sorted(tuple(r) for r in con.execute("select parent_id, child_id, call_order from call_edge"))
+        jobs = [tuple(r) for r in con.execute("select id, parent_id, call_hash, end_time from job")]
+        return nodes, edges, jobs
+    finally:
+        con.close()
+
+
+def graph_defects(nodes, edges, jobs=None):
+    """whole-database Merkle check on the rows alone (programs of the fault histories record every job): every CallNode id is
+    hash(task, args, result, sorted children of its CallEdge rows); edges are closed; with `jobs`: the node of every ended
+    child job is a CallEdge child of the node of its ended parent job"""
+    import redun.hashing as hashing
+    hs = getattr(hashing.hash_struct, "__wrapped__", hashing.hash_struct)
+    kids = {}
+    out = []
+    for p, ch, n in edges:
+        kids.setdefault(p, []).append(ch)
+        if p not in nodes or ch not in nodes:
+            out.append(("edge-dangling", p[:8], ch[:8], n))
+    for h, (t, a, v) in nodes.items():
+        if hs(["CallNode", t, a, v, sorted(kids.get(h, []))]) != h:
+            out.append(("node-is-not-hash-of-its-rows", h[:8], len(kids.get(h, []))))
+    if jobs is not None:
+        call = {j[0]: j[2] for j in jobs if j[2] and j[3]}
+        for jid, parent, ch, end in jobs:
+            if parent in call and ch and end and ch not in kids.get(call[parent], []):
+                # a parent that failed may have ended before this child did; its node then rightly lacks the child
+                if ("node-is-not-hash-of-its-rows", call[parent][:8], len(kids.get(call[parent], []))) in out:
+                    out.append(("child-job-node-is-not-an-edge-child", call[parent][:8], ch[:8]))
+    return out
+
+
+def fault_program(ctx, call, positions, label):
+    """fault-free run (every durable state checked), then one history per commit position: a transient OperationalError at
+    that commit (db_retry), and a process death right after it followed by a re-run on the same file"""
+    import os
+    import shutil
+    import tempfile
+    import ctl_db as D
+    import gm_tasks as T
+    case0 = {"fault_program": call}
+    tmp = tempfile.mkdtemp(prefix="c20f", dir="/dev/shm" if os.path.isdir("/dev/shm") else None)
+    n_hist = 0
+    try:
+        # a migrated, empty database file: copied for every history (running the alembic migrations costs 0.25 s)
+        template = os.path.join(tmp, "template.db")
+        D.close_scheduler(D.new_scheduler(template))
+
+        def attempt(path, tap_factory):
+            """-> (outcome, tap) ; outcome 'ok' | 'err:<type>' | 'crash'"""
+            if not os.path.exists(path):
+                shutil.copyfile(template, path)
+            s = D.new_scheduler(path)
+            s.log = lambda *a, **k: None
+            tap = tap_factory(s.backend) if tap_factory else None
+            try:
+                s.run(T.call(call))
+                out = "ok"
+            except D.Crash:
+                out = "crash"
+            except Exception as e:  # noqa: BLE001
+                out = "err:" + type(e).__name__
+            finally:
+                if tap is not None:
+                    tap.remove()
+                D.close_scheduler(s)
+            return out, tap
+
+        # --- fault-free run; every durable state (after each writing commit) must already be Merkle-consistent
+        base = os.path.join(tmp, "base.db")
+        durable_bad = []
+
+        def on_commit(k):
+            nodes, edges, _ = read_graph(base)
+            d = graph_defects(nodes, edges)
+            if d and not durable_bad:
+                durable_bad.append((k, d[:3]))
+
+        out0, tap0 = attempt(base, lambda b: D.CommitTap(b, on_commit=on_commit))
+        ncommits = tap0.n
+        ctx.case(key=("durable", repr(call)), fault="none", commits=min(ncommits // 10 * 10, 90))
+        if durable_bad:
+            ctx.violation("C20-durable-node-without-edges", "a durable state of a fault-free run (the database right after a commit) "
+                          "holds a CallNode that is not the hash of its own rows and CallEdge children", dict(case0, commit=durable_bad[0][0]),
+                          expected="every committed CallNode comes with its CallEdges", actual=durable_bad[0][1], kind="crash_point")
+        nodes0, edges0, jobs0 = read_graph(base)
+        want = (sorted(nodes0.items()), edges0)
+        d0 = graph_defects(nodes0, edges0, jobs0)
+        if d0:
+            ctx.violation("C20-merkle-db-rows", "after a fault-free run a CallNode is not the hash of its rows / a child job's node "
+                          "is not an edge child", case0, expected=[], actual=d0[:4])
+        if out0.startswith("err") and out0 != "err:ValueError":
+            ctx.mismatch("harness: the fault-free run of a fault program failed", case0, model="ok", impl=out0)
+            return 0
+        # --- one fault per commit position
+        for k in positions(ncommits):
+            for mode in ("transient", "death"):
+                path = os.path.join(tmp, "f.db")
+                for suffix in ("", "-wal", "-shm", "-journal"):
+                    if os.path.exists(path + suffix):
+                        os.remove(path + suffix)
+                if mode == "transient":
+                    out, tap = attempt(path, lambda b: D.FaultTap(b, k, "commit"))
+                    fired = tap.fired_at is not None
+                else:
+                    out, tap = attempt(path, lambda b: D.CommitTap(b, crash_after=k))
+                    fired = out == "crash"
+                recovered = False
+                if out != "ok" and out != out0:
+                    # the process died, or the error was not absorbed by db_retry: run the workflow again on the same file
+                    out2, _ = attempt(path, None)
+                    recovered = True
+                    if out2 != out0:
+                        ctx.violation("C20-rerun-after-fault-fails", "the re-run after a fault ends differently from the fault-free run",
+                                      dict(case0, commit=k, fault=mode), expected=out0, actual=out2, kind="crash_point")
+                        continue
+                n_hist += 1
+                ctx.case(key=(label, mode, k, repr(call)), fault=mode, fired=fired, rerun=recovered)
+                nodes, edges, jobs = read_graph(path)
+                case = dict(case0, commit=k, fault=mode)
+                d = graph_defects(nodes, edges, jobs)
+                if d:
+                    ctx.violation("C20-node-without-edges-after-fault", "after a fault at one commit and recovery (db_retry or re-run on "
+                                  "the same database) a CallNode is not hash(task, args, result, sorted children of its CallEdge rows)",
+                                  case, expected="same CallNode/CallEdge rows as the fault-free run", actual=d[:4], kind="crash_point")
+                elif (sorted(nodes.items()), edges) != want and not has_fail(call):
+                    # (with a failing job the comparison is not demanded: which children a failed parent had seen when it was
+                    # rejected differs between a run and a re-run that finds some of them in the cache - C07's subject)
+                    lost_e = [e for e in want[1] if e not in edges]
+                    extra_e = [e for e in edges if e not in want[1]]
+                    ctx.violation("C20-graph-differs-after-fault", "after a fault at one commit and recovery the CallNode / CallEdge rows "
+                                  "differ from those of the fault-free run", case, expected=dict(nodes=len(want[0]), edges=len(want[1])),
+                                  actual=dict(nodes=len(nodes), lost_edges=[(p[:8], c_[:8], n) for p, c_, n in lost_e][:4],
+                                              extra_edges=[(p[:8], c_[:8], n) for p, c_, n in extra_e][:4]), kind="crash_point")
+    finally:
+        shutil.rmtree(tmp, ignore_errors=True)
+    return n_hist
+
+
+def fault_histories(ctx):
+    import logging
+    import ctl_db as D
+    D.quiet()                       # db_retry logs every injected error
+    try:
+        _fault_histories(ctx)
+    finally:
+        logging.disable(logging.NOTSET)
+        logging.getLogger("redun").setLevel(logging.INFO)
+
+
+def _fault_histories(ctx):
+    rng = ctx.rng
+    every = lambda n: range(1, n + 1)                                       # noqa: E731
+    for i, call in enumerate(FAULT_CORPUS[: ctx.n(1, 4)]):
+        fault_program(ctx, call, every, "corpus%d" % i)
+    for i in range(ctx.n(2, 8)):
+        call = gen_fault_call(rng, rng.choice([1, 2]), [10 * i])
+        # generated programs: a seeded sample of the commit positions (all of them in the thorough tier)
+        if ctx.tier == "quick":
+            pos = lambda n: sorted(rng.sample(range(1, n + 1), min(n, 4)))   # noqa: E731
+        else:
+            pos = every
+        fault_program(ctx, call, pos, "gen%d" % i)
+
+
 def run(ctx):
     rng = ctx.rng
     pending = []
     replay_pickle_aliasing_witness(ctx)
+    fault_histories(ctx)
     for h in CORPUS:
         run_history(ctx, h, pending)
-    for _ in range(ctx.n(90, 1000)):
+    for _ in range(ctx.n(45, 800)):
         run_history(ctx, gen_history(rng), pending)
     flush(ctx, pending)
 
 
 def replay(ctx, case):
     c = case.get("case") or {}
+
+    def tup(x):
+        return tuple(tup(y) for y in x) if isinstance(x, list) else x
+    if isinstance(c, dict) and c.get("fault_program") is not None:
+        call = tup(c["fault_program"])
+        k = c.get("commit")
+        print("replay fault history:", call, "commit", k, c.get("fault"))
+        import logging
+        import ctl_db as D
+        D.quiet()
+        try:
+            fault_program(ctx, call, (lambda n: [k] if k and k <= n else range(1, n + 1)), "replay")
+        finally:
+            logging.disable(logging.NOTSET)
+        return
     h = c.get("history") if isinstance(c, dict) else None
     if h is None:
         print("replay: no history in the case; running the normal check")
